@@ -14,11 +14,13 @@ EXTENDS Integers, FiniteSets, TLC
 
 CONSTANT Devs
 
-MdLenClasses   == {"absent", "truncvarint", "exact", "longer", "shorter"}
+\* "huge": a length prefix >= 2^63 - 10 (negative or wrapping when converted to a signed
+\* integer or added to an offset); "overlong": a varint of more than 10 bytes
+MdLenClasses   == {"absent", "truncvarint", "exact", "longer", "shorter", "huge", "overlong"}
 MdClasses      == {"valid", "invalidwire"}
 MethodClasses  == {"empty", "unknown", "message", "service", "enum", "enumvalue", "field", "method"}
 DirClasses     == {"request", "response", "invalid"}
-PLenClasses    == {"absent", "truncvarint", "exact", "longer"}
+PLenClasses    == {"absent", "truncvarint", "exact", "longer", "huge", "overlong"}
 PayloadClasses == {"valid", "othertype", "invalidwire", "empty"}
 
 Frames == [mdlen : MdLenClasses, md : MdClasses, method : MethodClasses, dir : DirClasses,
@@ -26,7 +28,7 @@ Frames == [mdlen : MdLenClasses, md : MdClasses, method : MethodClasses, dir : D
 
 \* the set of allowed outcomes of decoding frame f
 Decode(f) ==
-  CASE f.mdlen \in {"absent", "truncvarint", "longer"} -> {"err"}   \* no metadata: no method: lookup fails
+  CASE f.mdlen \in {"absent", "truncvarint", "longer", "huge", "overlong"} -> {"err"}   \* no metadata: no method: lookup fails
     [] f.mdlen = "shorter" -> {"err", "msg"}                        \* a prefix of the metadata: anything but a crash
     [] f.md = "invalidwire" -> {"err"}
     [] f.method \in {"empty", "unknown"} -> {"err"}
@@ -35,7 +37,7 @@ Decode(f) ==
          \* the unchecked type assertion panics.
          IF "MethodFieldNamesNonMethod" \in Devs THEN {"panic"} ELSE {"err"}
     [] f.dir = "invalid" -> {"err"}
-    [] f.plen \in {"absent", "truncvarint", "longer"} -> {"msg"}    \* no payload bytes: the empty message
+    [] f.plen \in {"absent", "truncvarint", "longer", "huge", "overlong"} -> {"msg"}    \* no payload bytes: the empty message
     [] f.payload \in {"valid", "empty"} -> {"msg"}
     [] f.payload = "invalidwire" -> {"err"}
     [] f.payload = "othertype" -> {"err", "msg"}                    \* well-formed bytes of another type
